@@ -518,15 +518,18 @@ theorem dual_curve_dominates (N : Nat → Nat) (d : List Nat) (hN0 : N 0 = 0) (h
     (∀ x, N x ≤ curveN d x) ∧ (∀ x, x < d.getLastD 0 → curveN d x = N x) := by
   have hbelow := dual_eq_below N d hN0 hpos hmono hwf hdual
   refine ⟨fun x => ?_, hbelow⟩
-  obtain ⟨c, t, ht, hx, hN⟩ := curveN_decomp d hwf x
+  by_cases hx0 : x = 0
+  · subst hx0; rw [hN0]; exact Nat.zero_le _
+  obtain ⟨c, t, ht1, ht, hx, hN⟩ := curveN_decomp d hwf x (by omega)
   have hlen : 0 < d.length := List.length_pos_iff.2 hwf.1
   have h1 := subadd_mul N hsub (d.getLastD 0) t c
   have h2 := (hdual (d.length - 1) (by omega)).1
   rw [getD_last d hwf.1] at h2
   have h3 : c * N (d.getLastD 0) ≤ c * d.length := Nat.mul_le_mul_left c (by omega)
-  have h4 := hbelow t ht
-  have h5 := curveN_closed d hwf 0 t ht
-  rw [Nat.zero_mul, Nat.zero_add, Nat.zero_mul, Nat.zero_add] at h5
+  have hc := countLt_lt_length d hwf.1 t ht
+  have h4 := getD_ge_of_countLt d hwf.2.1 t (countLt d t) (Nat.le_refl _) hc
+  have h5 := hmono _ _ h4
+  have h6 := (hdual (countLt d t) hc).1
   rw [hN, hx]
   omega
 
